@@ -25,7 +25,6 @@
 #include <functional>
 #include <memory>
 #include <sstream>
-#include <sys/resource.h>
 
 namespace c11
 {
@@ -732,8 +731,9 @@ struct Ctx
   uint64_t instances = 0;         // store instances created (thread budget under mcsched)
   int onlyM2 = -1;                // replay of a (d) case: evaluate only this second-level point
   uint64_t onlyCut2 = 0;
-  int d_from = 0, d_to = 1 << 30; // (d): evaluate second-level image ordinals in [d_from, d_to)
-  int d_count = 0;                // (d): number of second-level images seen (set by runCont)
+  // (d): given the number of second-level crash images, which ordinals [from,to) to evaluate now
+  // (the scheduler part splits them over several executions: thread budget)
+  std::function<std::pair<int, int>(int)> dSelect;
   bool anyViolation = false;
 };
 
@@ -870,6 +870,10 @@ inline void runCont(Ctx &c, const cfs::Image &im, const Adm &A, const std::strin
       std::string cls2[NKEYS];
       cfs::Image im2 = im;
       int M = int(r2.mutIdx.size());
+      int total = -1; // (0,0) is skipped
+      for (int m = 0; m <= M; ++m)
+        total += (m < M && r2.ev[size_t(r2.mutIdx[size_t(m)])].kind == cfs::WRITE) ? int(r2.ev[size_t(r2.mutIdx[size_t(m)])].len) : 1;
+      std::pair<int, int> range = c.dSelect ? c.dSelect(total) : std::make_pair(0, total);
       int ordinal = 0;
       for (int m = 0; m <= M; ++m)
       {
@@ -879,7 +883,7 @@ inline void runCont(Ctx &c, const cfs::Image &im, const Adm &A, const std::strin
           if (m == 0 && cut == 0)
             continue; // = the first-level image itself (continuation a)
           int ord = ordinal++;
-          if (ord < c.d_from || ord >= c.d_to)
+          if (ord < range.first || ord >= range.second)
             continue;
           if (c.onlyM2 >= 0 && !(c.onlyM2 == m && c.onlyCut2 == cut))
             continue;
@@ -908,7 +912,6 @@ inline void runCont(Ctx &c, const cfs::Image &im, const Adm &A, const std::strin
         if (m < M)
           im2.apply(r2.ev[size_t(r2.mutIdx[size_t(m)])]);
       }
-      c.d_count = ordinal;
     }
   }
   if (ct.wallAdvS)
@@ -1059,12 +1062,7 @@ inline void evalPoint(Ctx &c, const Level1 &L, const CrashPoint &cp, const std::
     std::vector<std::string> saved[NKEYS];
     for (int k = 0; k < NKEYS; ++k)
       saved[k] = c.ever[k];
-    struct rusage ru0, ru1;
-    getrusage(RUSAGE_SELF, &ru0);
     runCont(c, im, A, cp.shape, id, ct);
-    getrusage(RUSAGE_SELF, &ru1);
-    if (getenv("C11_PROF") && ru1.ru_minflt - ru0.ru_minflt > 150)
-      fprintf(stderr, "PROF %s m=%d cut=%llu cont=%s faults=%ld\n", c.hist.c_str(), cp.m, (unsigned long long)cp.cut, ct.str().c_str(), ru1.ru_minflt - ru0.ru_minflt);
     for (int k = 0; k < NKEYS; ++k)
       c.ever[k] = saved[k];
   }
